@@ -272,20 +272,32 @@ func (w *world) apply(s step) chainx.TxResult {
 		msg := stakingtypes.NewMsgBeginRedelegate(w.acc[s.W].Addr, w.valAddr(s.V), w.valAddr(s.V2), coin)
 		return w.tx(msg, func() error { _, e := ts.Servers.StakingServer.BeginRedelegate(ts.GoCtx, msg); return e })
 	case "cancelunbond":
-		ubd, found := ts.Keepers.StakingKeeper.GetUnbondingDelegation(ts.Ctx, w.acc[s.W].Addr, w.valAddr(s.V))
+		// the generator cannot know which unbonding entries exist: ask the chain (prefer validator s.V) and
+		// cancel min(amount, entry balance) of the first entry found
 		height := int64(-1)
-		if found {
+		vname := s.V
+		for _, vn := range append([]string{s.V}, valNames...) {
+			ubd, found := ts.Keepers.StakingKeeper.GetUnbondingDelegation(ts.Ctx, w.acc[s.W].Addr, w.valAddr(vn))
+			if !found {
+				continue
+			}
 			for _, en := range ubd.Entries {
-				if en.Balance.GTE(coin.Amount) {
-					height = en.CreationHeight
+				if en.Balance.IsPositive() {
+					height, vname = en.CreationHeight, vn
+					if en.Balance.LT(coin.Amount) {
+						coin = sdk.NewCoin(denom, en.Balance)
+					}
 					break
 				}
+			}
+			if height >= 0 {
+				break
 			}
 		}
 		if height < 0 {
 			return chainx.TxResult{Err: "no unbonding entry"}
 		}
-		msg := stakingtypes.NewMsgCancelUnbondingDelegation(w.acc[s.W].Addr, w.valAddr(s.V), height, coin)
+		msg := stakingtypes.NewMsgCancelUnbondingDelegation(w.acc[s.W].Addr, w.valAddr(vname), height, coin)
 		return w.tx(msg, func() error { _, e := ts.Servers.StakingServer.CancelUnbondingDelegation(ts.GoCtx, msg); return e })
 	case "slash":
 		// evidence handling in begin-block: slash, then dualstaking's BeginBlock re-balances the delegators
